@@ -189,7 +189,7 @@ func (d *Disk) Delete(key []byte) error {
 
 func (d *Disk) NewBatch() kaidb.Batch { return &batch{d: d} }
 
-func (d *Disk) Stat(property string) (string, error) { return "", errors.New("unknown property") }
+func (d *Disk) Stat(property string) (string, error)     { return "", errors.New("unknown property") }
 func (d *Disk) Compact(start []byte, limit []byte) error { return nil }
 
 func (d *Disk) NewIterator(prefix []byte, start []byte) kaidb.Iterator {
